@@ -2,14 +2,17 @@
 
 A case is a chain of zone versions V0..Vn (plain data), the version the client holds, the
 way the server answers and the way the RR stream is cut into messages.  run(case) renders
-every message to wire (dns.renderer, one RRset per RR, stream order), parses it exactly as
-dns.query._inbound_xfr does, drives dns.xfr.Inbound with a replica of that function's loop
-and compares the outcome with vlib/ref/xfr_model.py (an RFC 1995/5936 stream interpreter
-that reads the SAME wire through the independent walker of vlib/ref/wire.py).  Then every
-single fault (kind x position) of the base stream is applied and checked the same way.
+every message to wire (dns.renderer, one RRset per RR, stream order), feeds the wires to the
+real dns.query._inbound_xfr through a scripted socket object (TCP: any object with send/recv;
+UDP: an unconnected datagram socket subclass) and compares the outcome with
+vlib/ref/xfr_model.py (an RFC 1995/5936 stream interpreter that reads the SAME wire through
+the independent walker of vlib/ref/wire.py).  Then every single fault (kind x position) of the
+base stream is applied and checked the same way.  Base streams additionally go through
+_drive(), a replica of _inbound_xfr's loop (same from_wire arguments: xfr, origin,
+one_rr_per_rrset for IXFR, multi/tsig_ctx threading, end of input => EOFError inside the
+`with`), which sees what process_message() returns for every message.
 
-Parts: `transfer` (the above; base streams also go through the real dns.query._inbound_xfr
-over a scripted socket), `signed` (base streams, TSIG-signed per a generated sign mask,
+Parts: `transfer` (the above), `signed` (base streams, TSIG-signed per a generated sign mask,
 through the real _inbound_xfr), `query` (make_query / extract_serial_from_query / Inbound
 argument checks).
 
@@ -97,11 +100,10 @@ ASSUMPTIONS = [
     "vlib/ref/xfr_model.py (RFC 1995/5936 grammar + documented transaction semantics for the "
     "classes listed as model_lenient:*) is the trusted reference; it reads the rendered wire "
     "through vlib/ref/wire.py, not through dnspython",
-    "messages are parsed with exactly the arguments of dns.query._inbound_xfr and the driver loop "
-    "is a replica of that function (sockets replaced by a list of wires; end of list = EOFError)",
-    "base streams are additionally driven through the real dns.query._inbound_xfr over a scripted "
-    "socket object (part `transfer`) and, TSIG-signed with a generated per-message sign mask and a "
-    "pinned clock, in part `signed`; MAC correctness itself is C14's business",
+    "streams are driven through the real (private) dns.query._inbound_xfr over a scripted socket "
+    "object; base streams also through a replica of its loop that records process_message() "
+    "results; part `signed` signs the messages per a generated sign mask under a pinned clock "
+    "(MAC correctness itself is C14's business); dns.asyncquery's copy of the loop is not driven",
     "D12 / D12b excluded by construction while EXCLUDE_D12 / EXCLUDE_D12B are True (counted as "
     "excluded:D12, excluded:D12b)",
 ]
@@ -962,8 +964,8 @@ def _judge(P, verdict, fault, flavour, zone, before, vbefore, exc, consumed, res
     detail = {"fault": None if fault is None else list(fault), "zone": [kind, relativize], "model": repr(verdict)}
     if getattr(zone, "_write_txn", None) is not None:
         raise Violation("txn-leak", f"{where}: the write transaction is still open after the transfer ended ({exc!r})", "write_txn", detail)
-    if P.is_udp and results and not results[0]:
-        raise Violation("udp-not-done", f"{where}: process_message() returned False for a UDP IXFR datagram: the client would wait for a second datagram", "udp", detail)
+    if P.is_udp and ((results and not results[0]) or (isinstance(exc, _FromFake) and consumed >= 1)):
+        raise Violation("udp-not-done", f"{where}: the UDP IXFR datagram was processed without finishing and without an error: the client goes on waiting for a second datagram", "udp", detail)
     if exc is not None:
         ek = exc_key(exc) if last_frame_in_dns(exc) else f"{type(exc).__name__}@driver"
         # (2) atomicity, unconditional
@@ -1041,18 +1043,20 @@ def run(case):
             classes.append(f"verdict:reject:{verdict.reason}")
         for flavour in P.flavours:
             kind, relativize, items, q, s, want_t = flavour
+            # every stream goes through the real dns.query._inbound_xfr (scripted socket) ...
             zone = _build_zone(P.ctx, kind, relativize, items)
             before = ZU.extract(zone)
             vbefore = _version_ids(zone)
-            exc, consumed, results = _drive(zone, want_t, s, P.is_udp, wires, q)
-            _judge(P, verdict, fault, flavour, zone, before, vbefore, exc, consumed, results, mm, "")
+            exc, consumed = _drive_real(zone, q, s, P.is_udp, lambda _qwire: wires)
+            _judge(P, verdict, fault, flavour, zone, before, vbefore, exc, consumed, None, mm, "")
             if fault is None:
-                # the same stream through the real dns.query._inbound_xfr (scripted socket)
+                # ... and base streams also through the replica of its loop, which sees what
+                # process_message() returns for every message ("done exactly at the final SOA")
                 zone = _build_zone(P.ctx, kind, relativize, items)
                 vbefore = _version_ids(zone)
-                exc, consumed = _drive_real(zone, q, s, P.is_udp, lambda _qwire: wires)
-                _judge(P, verdict, fault, flavour, zone, before, vbefore, exc, consumed, None, mm, " (real _inbound_xfr)")
-                classes.append("real_driver")
+                exc, consumed, results = _drive(zone, want_t, s, P.is_udp, wires, q)
+                _judge(P, verdict, fault, flavour, zone, before, vbefore, exc, consumed, results, mm, " (replica driver)")
+                classes.append("replica_driver")
 
     check_stream(P.base, None)
     for fault in faults:
@@ -1489,7 +1493,7 @@ def parts(tier):
     return [
         Part(
             "transfer", run, strategy=transfer_cases(tier),
-            n={"quick": 480, "thorough": 4800}, require=req, case_timeout_s=120.0,
+            n={"quick": 400, "thorough": 4000}, require=req, case_timeout_s=120.0,
             shards={"quick": 16, "thorough": 16},
         ),
         Part(
